@@ -7,6 +7,9 @@
  *   h_crc echo LO HI            content/state coincidences: for every state c in [LO,HI), prefixes of 0..7 bytes, then the two
  *                               bytes that make (running state XOR data) equal 0, 0xFFFF, 0x8000, 0x0001, 0xA001, 0x00FF, 0xFF00,
  *                               followed by 2 or 6 bytes of 0x00 / 0xFF and a short tail; whole, split at the prefix, vs reference
+ *   h_crc zeros SEED LEN        one call over LEN zero bytes (untouched anonymous memory, so any LEN is cheap) from several non-zero
+ *                               states, whole and in two pieces; reference = the one-zero-byte step raised to the LEN-th power
+ *                               (16x16 matrix over GF(2), repeated squaring)
  *   h_crc huge SEED LEN         one buffer of LEN bytes (LEN may exceed 2^32), whole and 2-split, vs reference
  * Prints "MISMATCH ..." lines (at most 20) and one "SUMMARY ..." line.
  */
@@ -14,6 +17,7 @@
 #include <stdlib.h>
 #include <string.h>
 #include <stdint.h>
+#include <sys/mman.h>
 #include "crc16.h"
 
 static uint16_t ref_step(uint16_t c, uint8_t b)
@@ -145,6 +149,29 @@ int main(int argc, char **argv)
 			if (sp != want) report("echo-split-at-prefix", c, p, n, off, sp, want);
 			++cases; ++splits;
 		}
+	} else if (!strcmp(argv[1], "zeros")) {
+		/* M[i] = image of basis vector i under "feed one zero byte" */
+		uint16_t M[16], P[16], R[16]; int i, j; unsigned long long n = strtoull(argv[3], NULL, 10), e;
+		uint8_t *z = mmap(NULL, n ? n : 1, PROT_READ, MAP_PRIVATE | MAP_ANONYMOUS | MAP_NORESERVE, -1, 0);
+		if (z == MAP_FAILED) { fprintf(stderr, "HARNESS cannot map %llu bytes\n", n); return 3; }
+		sm_state = strtoull(argv[2], NULL, 10);
+		for (i = 0; i < 16; ++i) { M[i] = ref_step((uint16_t) (1u << i), 0); R[i] = (uint16_t) (1u << i); }
+		for (e = n; e; e >>= 1) {
+			if (e & 1) { for (i = 0; i < 16; ++i) { uint16_t v = 0; for (j = 0; j < 16; ++j) if (R[i] & (1u << j)) v ^= M[j]; P[i] = v; } memcpy(R, P, sizeof R); }
+			for (i = 0; i < 16; ++i) { uint16_t v = 0; for (j = 0; j < 16; ++j) if (M[i] & (1u << j)) v ^= M[j]; P[i] = v; }
+			memcpy(M, P, sizeof M);
+		}
+		for (i = 0; i < (n >= (1ull << 30) ? 1 : 3); ++i) {
+			uint16_t c0 = (uint16_t) (sm() | 1), want = 0, whole, sp; size_t cut = (size_t) (sm() % (n + 1));
+			for (j = 0; j < 16; ++j) if (c0 & (1u << j)) want ^= R[j];
+			whole = c0; lha_crc16_buf(&whole, z, (size_t) n);
+			if (whole != want) report("zeros-whole", c0, z, (size_t) n, 0, whole, want);
+			if (argc > 4 && !strcmp(argv[4], "whole-only")) { ++cases; continue; }
+			sp = c0; lha_crc16_buf(&sp, z, cut); lha_crc16_buf(&sp, z + cut, (size_t) n - cut);
+			if (sp != want) report("zeros-2split", c0, z, (size_t) n, cut, sp, want);
+			++cases; ++splits;
+		}
+		munmap(z, n ? n : 1);
 	} else if (!strcmp(argv[1], "long") || !strcmp(argv[1], "huge")) {
 		size_t *lens = malloc(4096 * sizeof(size_t)), nl = 0, maxlen = 0, li;
 		uint8_t *arena;
